@@ -4,35 +4,52 @@ import warnings
 warnings.simplefilter("ignore")
 
 import sexp
+import simiter
 import simlib
 
 ID = "C02"
 GEN = []
-CORR_NAME = "interleaved-queries-on-one-simulator"
-RULE = ("one case = one generated problem (same generator as C01) and a random interleaving of 26 (quick) / 50 (thorough) "
-        "queries on ONE simulator instance over the states created so far: is_applicable+apply pairs in either order on a "
-        "random ground instance (36%), get_applicable_actions (11%), get_initial_state again (3%), is_goal+get_unsatisfied_goals (14%), "
-        "get_unsatisfied_goals (8%), re-reading of a state (28%), and a final re-reading of every state. Every answer is "
-        "compared with the pure model; the oracle repeats every query on a fresh simulator, re-reads the states and checks "
-        "is_applicable == (apply is not None), get_applicable_actions == instances where apply succeeds, "
-        "is_goal == (get_unsatisfied_goals returns []). Non-trivial = some queried (state, instance) pair fires >= 2 effects "
-        "on one ground fluent, or touches a bounded/invariant fluent, or reads an undefined fluent.")
+CORR_NAME = "interleaved-queries-and-partial-enumerations-on-one-simulator"
+RULE = ("one case = one generated problem (same generator as C01) and a random history of >= 30 (quick) / 54 (thorough) operations "
+        "on ONE simulator instance over the states created so far. 25% of the cases use the alphabet of complete queries only: "
+        "is_applicable+apply pairs in either order on a random ground instance (36%), get_applicable_actions consumed completely (11%), "
+        "get_initial_state again (3%), is_goal+get_unsatisfied_goals (14%), get_unsatisfied_goals (8%), re-reading of a state (28%). "
+        "75% of the cases (harness/simiter.py) add the operations on get_applicable_actions ITERATORS: open one on a state, next, "
+        "close, throw an exception into it, consume the rest — so enumerations are left after k elements (dropped silently, closed, "
+        "left by an exception), up to 4 are alive at a time on one or on different states and pulled alternately element by element, "
+        "the other queries run between two next calls, in 70% of these cases the FIRST enumeration the simulator is ever asked for is "
+        "a partial one, and every state that was enumerated gets a complete enumeration at the end; then a final re-reading of every "
+        "state. Every answer (every single next included, in the order the code yields) is compared with the pure model, in which an "
+        "iterator is its own frame only. The oracle repeats every complete query on a fresh simulator, replays every iterator's "
+        "operations on an iterator of a fresh simulator that is asked nothing else, re-reads the states and checks is_applicable == "
+        "(apply is not None); complete get_applicable_actions == instances where apply succeeds; every iterator yields only such "
+        "instances, none twice, and all of them when it reports its end; is_goal == (get_unsatisfied_goals returns []). "
+        "Non-trivial = some queried (state, instance) pair fires >= 2 effects on one ground fluent, or touches a bounded/invariant "
+        "fluent, or reads an undefined fluent.")
 ASSUMPTIONS = [
     "same domain restrictions as C01 (non-zero constant divisors, supported kind, invariant-respecting initial state, "
     "user-typed parameters, nested Exists, constants below 2**53; Exists with an x == t conjunct on the bound variable only on a tree with C11's simplifier patch)",
     "until DagWalker.walk restores its stack/memo after an exception (C14's patch, auto-detected by simlib) the runner swaps in "
     "a fresh simulator after a failed evaluation and does not compare a get_applicable_actions call that died on the stale "
-    "stack; with the patch merged the whole history runs on one instance",
+    "stack, and no iterator operations are generated; with the patch merged the whole history runs on one instance",
+    "the iterators get_applicable_actions returns are compared in the order the code yields (grounding order: actions in "
+    "declaration order, parameters in product order of the objects) — the property text fixes the set only; the oracle's own "
+    "demands on an iterator are order-free except that it must answer like an iterator of a fresh simulator",
 ]
 MODELLED = [
     "same model as C01 (Core/Sim.lean); is_applicable is the repaired full check that shares _evaluate_effects with apply_unsafe",
-    "purity is a theorem of the (stateless) model only; for the code it is what the interleaved correspondence and the "
-    "fresh-simulator oracle sample",
+    "purity is a theorem of the model only (complete queries: stateless; iterators: the only state is the iterator's own frame, "
+    "Props/C02Iter.lean); for the code it is what the interleaved correspondence and the fresh-simulator oracle sample",
+    "the cached list of groundings (self._grounded_actions) is modelled as the constant allInstances(problem): the code assigns a "
+    "complete list before the first element is looked at",
 ]
-BUDGET_S = {"quick": 45, "thorough": 300}
+BUDGET_S = {"quick": 45, "thorough": 220}
 SEARCH_S = {"quick": 40, "thorough": 200}
 
 _cache = {}
+
+
+EXTRA_PROPS = ["UPVerif.Props.C02Iter"]
 
 
 def make_case(rng, tier):
@@ -43,20 +60,22 @@ def make_case(rng, tier):
             continue
         fns = simlib.gen_tables(rng) if simlib.uses_ifuns(ps) else []
         try:
-            real = simlib.make_real(ps, fns)
+            real = simiter.make_real(ps, fns)
         except simlib.Skip:
             continue
-        return simlib.payload(ps, simlib.interleave_ops(real, rng, n_ops), fns)
+        if simlib.REPLACE_DIRTY_SIM or rng.random() < 0.25:
+            return simlib.payload(ps, simlib.interleave_ops(real, rng, n_ops), fns)
+        return simlib.payload(ps, simiter.iter_interleave_ops(real, rng, n_ops + 4), fns)
 
 
 def cases(rng, tier):
-    n = 100 if tier == "quick" else 2000
+    n = 90 if tier == "quick" else 1500
     for _ in range(n):
         yield make_case(rng, tier)
 
 
 def impl(payload):
-    real = simlib.Real(payload[1], payload[2][1:])
+    real = simiter.IterReal(payload[1], payload[2][1:])
     return real.run(payload[3][1:])[0]
 
 
@@ -69,7 +88,10 @@ def _tags(payload):
         if len(_cache) > 4000:
             _cache.clear()
         try:
-            _cache[k] = simlib.analyse(payload)[1]
+            # simlib.analyse (C01's semantic tagging) knows the complete queries only: iterator ops are replaced by a
+            # re-reading, which keeps the numbering of the state slots
+            ops = [["dump", "0"] if simiter.is_iter_op(o) else o for o in payload[3][1:]]
+            _cache[k] = simlib.analyse(simlib.payload(payload[1], ops, payload[2][1:]))[1]
         except Exception:
             _cache[k] = set()
     return _cache[k]
@@ -82,7 +104,7 @@ def nontrivial(payload, ans):
 def stats(payload, ans):
     out = sorted(_tags(payload))
     ops = payload[3][1:]
-    for h in ("apply", "isapp", "applicable", "goal", "ugoals", "dump"):
+    for h in ("apply", "isapp", "applicable", "goal", "ugoals", "dump") + simiter.ITER_HEADS:
         n = sum(1 for o in ops if o[0] == h)
         if n:
             out.append(f"has:{h}")
@@ -93,13 +115,15 @@ def stats(payload, ans):
             out.append("tolerated:d-c14a")
         if any(a == ["raise", "missing"] for a in ans):
             out.append("ugoals:raises-missing")
+        if len(ans) == len(ops):
+            out += sorted(simiter.iter_tags(ops, ans))
     return out
 
 
 def oracle(payload):
-    """the property itself on the real code (simlib.analyse_c02)"""
+    """the property itself on the real code (simiter.analyse_c02: simlib.analyse_c02 + iterators)"""
     try:
-        return simlib.analyse_c02(payload)
+        return simiter.analyse_c02(payload)
     except simlib.Skip:
         return None
 
@@ -111,7 +135,7 @@ def shrink(payload):
 
     def rebuild(ps):
         try:
-            real = simlib.make_real(ps, fns)
+            real = simiter.make_real(ps, fns)
         except simlib.Skip:
             return None
         # keep the ops that still make sense for the smaller problem
@@ -131,13 +155,20 @@ MANIFEST = {
     "level_text": ("Lean 4 theorems (Props/C02.lean) prove for every problem, simplifier, state and ground instance: is_applicable "
                    "equals (apply succeeds) including which exception escapes; get_applicable_actions returns exactly the ground "
                    "instances on which apply succeeds, in grounding order, and raises only if apply raises; is_goal is True exactly "
-                   "when get_unsatisfied_goals returns []; the model is stateless, so histories of queries are pure. The model "
+                   "when get_unsatisfied_goals returns []; the model is stateless, so histories of queries are pure. Props/C02Iter.lean "
+                   "models get_applicable_actions as the generator it is (the only state is the generator's own frame) and proves: a "
+                   "completely consumed fresh generator is that query; every next skips only instances on which apply returns None and "
+                   "stops at one on which apply succeeds / at the end / at one on which apply raises; k elements taken are the first k "
+                   "of the complete enumeration; in ANY history — enumerations left after k elements, closed, left by an exception, "
+                   "several pulled alternately, other queries in between — a complete query answers as if asked alone and a generator "
+                   "answers as if it were used alone on a fresh simulator (non-interference). The model "
                    "mirrors the repaired full check (one effect loop shared with apply_unsafe) and is tied to /repo by differential "
-                   "runs of random interleavings of the five queries on one simulator instance, with every answer re-asked on a "
-                   "fresh simulator and every state re-read."),
+                   "runs of random histories of the five queries and of iterator operations (open / next / close / throw / consume the rest) on one "
+                   "simulator instance, with every answer re-asked on a fresh simulator, every iterator replayed on a fresh simulator, and "
+                   "every state re-read."),
     "level_note": ("Purity of the CODE is sampled by the correspondence (interleavings), not proved. Trusted: Lean kernel; axioms "
                    "propext, Classical.choice, Quot.sound; the correspondence harness. Requires the fix: commit of "
                    "notes/patches/C01-simulator-single-effect-loop.patch (D-C02a/b/c)."),
-    "technique": "Lean 4 proof + model/code correspondence over interleaved query histories",
+    "technique": "Lean 4 proof + model/code correspondence over interleaved query histories with partially consumed enumerations",
     "design_ref": "DESIGN.md §5 C02",
 }
